@@ -103,7 +103,8 @@ def run(tier):
                        "(30 productions incl. pragma lines and _Pragma at item and sub-statement positions), deeper over a reduced "
                        "alphabet and over a switch-focused alphabet; a case is a distinct body")
     plans = [("all productions, <=3 nodes", 3, ALL), ("switch-focused, <=5 nodes", 5, SWITCHY), ("reduced alphabet, <=4 nodes", 4, REDUCED),
-             ("nested switches and runs of labels, <=7 nodes", 7, ["expr", "compound2", "switch", "case", "default", "break"])]
+             ("nested switches and runs of labels, <=7 nodes", 7, ["expr", "compound2", "switch", "case", "default", "break"]),
+             ("switch blocks with pragmas and bare blocks, <=7 nodes", 7, ["expr", "compound0", "compound3", "switch", "case", "item_pragma"])]
     if tier == "thorough":
         plans = [("all productions, <=4 nodes", 4, ALL), ("switch-focused, <=6 nodes", 6, SWITCHY), ("reduced alphabet, <=5 nodes", 5, REDUCED),
                  ("nested switches and runs of labels, <=7 nodes", 7, ["expr", "compound2", "compound3", "switch", "case", "default", "break"])]
@@ -118,6 +119,16 @@ def run(tier):
     replay_bodies(ctx, sim, "simulated")
     for c in rnd.sample(allc, 2):
         ctx.sample(dict(body=" ".join(c["toks"]), expected=xstrip(c["ast"])))
+    from .. import longunit
+    from .c16 import LISTS
+    jobs = longunit.list_jobs(["block_items"], {"block_items": LISTS["block_items"][2]}, rnd, 10 if tier == "quick" else 100)
+    nl = 0
+    for cnt, bad in pmap(longunit.check_list, jobs, chunk=4):
+        nl += cnt
+        for sig, text in bad:
+            ctx.fail("long list: " + sig, dict(kind="list", text=text))
+    ctx.count(len(jobs), nontrivial=len(jobs), traces=nl)
+    ctx.note("long_lists", dict(lists=len(jobs), items=nl))
     monitor(ctx, tier)
     ctx.cov["exhaustive"] = True
     ctx.assumptions += ["expressions are collapsed to numbered identifiers (C02 covers them)"]
@@ -181,6 +192,9 @@ def monitor(ctx, tier):
 
 def replay(path):
     r = json.load(open(path))["replay"]
+    if r.get("kind") == "list":
+        print("replay: a long list (text in the file); the comparison with its items parsed alone is made by re-running the check")
+        return 0
     res = check_case(r["case"])
     if res:
         print("VIOLATION property=C05 replay=%s" % path)
